@@ -61,6 +61,11 @@ func NewSession(repo, specDir, work string) (*Session, error) {
 	if err != nil {
 		return nil, err
 	}
+	libFiles, err := LoadLibContracts(specDir, contracts)
+	if err != nil {
+		return nil, err
+	}
+	files = append(files, libFiles...)
 	ex := NewExec(prog, ModulePath, db, contracts)
 	if err := ex.LoadSpec(); err != nil {
 		return nil, err
